@@ -285,6 +285,10 @@ class C14(Prop):
                 sim.fail_post("outcome", f"call {ci}: caller got {got_kind} {got_obj!r}, expected {exp[0]} {exp[1]!r} (outcomes={seq}, limit={limit})",
                               got=f"{got_kind}:{type(got_obj).__name__}", want=f"{exp[0]}:{type(exp[1]).__name__}")
                 return
+            if exp[0] in ("raised", "cancelled") and (got_obj.__context__ is not None or got_obj.__cause__ is not None):
+                sim.fail_post("exception-chain", f"call {ci}: the reported exception {got_obj!r} carries __context__={got_obj.__context__!r} / "
+                              f"__cause__={got_obj.__cause__!r}; the function raised it with neither")
+                return
             if dk == 3 and [(a, id(e)) for a, e in p_["delay_calls"]] != [(a, id(e)) for a, e in exp_delay_calls]:
                 sim.fail_post("delay-args", f"call {ci}: delay function called with {[(a, repr(e)) for a, e in p_['delay_calls']]}, expected "
                               f"{[(a, repr(e)) for a, e in exp_delay_calls]}")
